@@ -46,6 +46,16 @@ fn check_indices(m: usize, l: usize, len: usize, idx: &[u64]) -> Result<(), Stri
 }
 
 fn one_case(i: u64, seed: u64) -> Out {
+    if i % 6 == 5 {
+        one_case_h::<probminhash::superminhasher::NoHashHasher>(i, seed, true)
+    } else {
+        one_case_h::<FnvHasher>(i, seed, false)
+    }
+}
+
+/// `adjacent`: the hasher is a pass-through (NoHashHasher assembles the native-endian bytes big-endian, i.e. hash = swap_bytes(x)),
+/// elements are chosen so that their hashes are consecutive integers (pre-hashed data given as ranks)
+fn one_case_h<H: std::hash::Hasher + Default>(i: u64, seed: u64, adjacent: bool) -> Out {
     let mut rng = rng_from(mix(&[seed, i]));
     let l = match rng.random_range(0..10) {
         0..=3 => 1,
@@ -62,12 +72,17 @@ fn one_case(i: u64, seed: u64) -> Out {
         2 => (len / 3).max(1),
         _ => rng.random_range(1..=len.max(1)),
     };
-    let labels = fresh_ids(&mut rng, alphabet, 0);
-    let distinct_mode = rng.random_range(0..3) == 0;
+    let labels: Vec<u64> = if adjacent {
+        let base: u64 = rng.random_range(1..1u64 << 40);
+        (0..alphabet as u64).map(|r| (base + r).swap_bytes()).collect()
+    } else {
+        fresh_ids(&mut rng, alphabet, 0)
+    };
+    let distinct_mode = !adjacent && rng.random_range(0..3) == 0;
     let seq: Vec<u64> = if distinct_mode { fresh_ids(&mut rng, len, 0) } else { (0..len).map(|_| labels[rng.random_range(0..alphabet)]).collect() };
-    let case = json!({"m": m, "l": l, "len": len, "alphabet": if distinct_mode { len } else { alphabet }, "sequence": seq.iter().take(24).collect::<Vec<_>>()});
+    let case = json!({"m": m, "l": l, "len": len, "alphabet": if distinct_mode { len } else { alphabet }, "hasher": if adjacent { "NoHashHasher, consecutive hash values" } else { "FnvHasher" }, "sequence": seq.iter().take(24).collect::<Vec<_>>()});
     let mut out = Out { nexec: 0, fail: None, case, tuples: vec![] };
-    let mut sk = ProbOrdMinHash2::<FnvHasher>::new(m as u32, l);
+    let mut sk = ProbOrdMinHash2::<H>::new(m as u32, l);
     // unrelated earlier calls on the same instance
     for _ in 0..rng.random_range(0..=5) {
         let n = rng.random_range(l..l + 30);
